@@ -3,7 +3,7 @@
 # prints one line: <dir> applies=.. compiles=.. touches_pinned=.. demo_clean=<rc> demo_mutant=<rc>
 d="$1"
 scratch=$(mktemp -d /tmp/seedchk.XXXXXX)
-(cd /repo && git archive HEAD packages/llama-index-workflows/src packages/llama-agents-server/src packages/llama-agents-core/src packages/llama-agents-client/src packages/llama-agents-dbos/src src | tar -x -C "$scratch")
+(cd /repo && git archive HEAD packages/llama-index-workflows/src packages/llama-agents-server/src packages/llama-agents-core/src packages/llama-agents-client/src packages/llama-agents-dbos/src packages/llama-agents-control-plane/src src | tar -x -C "$scratch")
 applies=yes
 (cd "$scratch" && patch -p1 -s < "$d/patch.diff") || applies=no
 files=$(grep '^+++ b/' "$d/patch.diff" | sed 's#^+++ b/##')
